@@ -51,6 +51,10 @@ pub struct Scenario {
 	pub faults: bool,
 	/// after the failing step: one more enact and cleanup step, then a power loss (C12 x C16)
 	pub faults_then_power_loss: bool,
+	/// bound on the fault indices tried per step with the crate's own injector (its sites include the in-memory
+	/// reads of a reindex scan: tens of thousands per step); None = all (error beyond 400). The syscall injector is
+	/// never capped.
+	pub fault_site_cap: Option<usize>,
 	pub check_iter_rc: bool,
 }
 
@@ -77,6 +81,7 @@ impl Scenario {
 			crash: None,
 			faults: false,
 			faults_then_power_loss: false,
+			fault_site_cap: None,
 			check_iter_rc: true,
 		}
 	}
